@@ -6,7 +6,9 @@ CFG = {
     "prop": "C01", "theorems": ["C01_vm_follows_reference", "seg_all", "C01_reference_forms_agree", "C01_in_scope", "C01_vm_implements_atomized", "C01_vm_follows_reference_all", "C01_in_scope_all", "arrowA"], "feats": F, "n_quick": 500, "n_thorough": 12000,
     "tiers": ("t2", "run", "sem"), "k_base_quick": 14, "k_extra_quick": 8, "k_base_thorough": 80, "k_extra_thorough": 40,
     "corpus": ["(?=(a|ab)(?=))\\1c", "(?<=\\G.)", "(?>(?:(?=a)a*){2})", "(?:(?!-)\\w+-?){3}+", "(\\w)(?:\\1\\w*){2}+",
-               "(?:ab|a)(?=)b", "(a|ab)(c|bcd)(d*)", "(?<=ab|c)x", "(?<=bc|a)", "a(?=b)", "(a*)*b", "(?:a|b)*?c", "x*?$"],
+               "(?:ab|a)(?=)b", "(a|ab)(c|bcd)(d*)", "(?<=ab|c)x", "(?<=bc|a)", "a(?=b)", "(a*)*b", "(?:a|b)*?c", "x*?$",
+               # counted repeats with min > max (must not compile to a VM loop that performs fewer than min iterations)
+               "(?=a)a{3,2}", "(?:a|b){2,1}\\b", "(?=a)(?:a|ab){3,1}?c", "\\b(a){2,0}"],
     "flags": ("0",),
     "assumptions": ["regex-automata returns the leftmost-first match on delegated blocks (oracle); unbounded repeats over nullable bodies inside delegated blocks are left out (known finding F1)"],
 }
